@@ -170,6 +170,16 @@ theorem C09_lone_served (c : Cfg) (s : State) (hr : Reachable c s) (hk : 0 < c.k
   intro r hra hk'
   exact ((C09_partition_at_rest c s' hr' hq).1 r (by rw [harr]; exact hra) hk').2
 
+/-- The hypotheses of `C09_lone_served` can always be met: from every reachable state before the end
+    marker the system, left alone, does reach (within `mu c s` steps) a state at rest in which every
+    regular input that had arrived has been handed to `call`. -/
+theorem C09_lone_served_attained (c : Cfg) (s : State) (hr : Reachable c s) (hk : 0 < c.k) (hns : s.stopped = false) :
+    ∃ as s', Core.run (ustep c) s as = some s' ∧ as.length ≤ mu c s ∧ Quiet c s' ∧
+      ∀ r ∈ s.arrived, r.kind = .good → r ∈ calledAll s' := by
+  obtain ⟨as, s', hrun, hmax⟩ := exists_maximal_run c (mu c s) s (Nat.le_refl _)
+  obtain ⟨h1, h2, h3⟩ := C09_lone_served c s hr hk hns as s' hrun hmax
+  exact ⟨as, s', hrun, h1, h2, h3⟩
+
 /-- Output side.  (a) a value written to `q_out` for uid `u` is `u`'s own result and `u` was a
     member of a recorded call; (b) the exception of call number `cid` is delivered only to members
     of that call's batch; (c) all-or-nothing: for every recorded call, either its entry is still
